@@ -12,7 +12,10 @@ TRUSTED = ["the upstream server is a QTcpServer in the harness; loopback TCP may
 CODES = [99, 100, 101, 200, 204, 206, 301, 404, 418, 500, 599, 600, 0, 1000, -1]
 REASONS = [b"OK", b"", b"Not Found", b"I AM A TEAPOT", b"x  y"]
 HDRS = [(b"Set-Cookie", b"a=1"), (b"Set-Cookie", b"b=2"), (b"set-cookie", b"c=3"), (b"Content-Type", b"text/plain"), (b"X-Up", b"1"),
-        (b"Content-Length", None), (b"Vary", b"a, b"), (b"X-Empty", b"")]
+        (b"Content-Length", None), (b"Vary", b"a, b"), (b"X-Empty", b""),
+        # values with runs of blanks and tabs inside: they are part of the value
+        (b"Last-Modified", b"Sun Nov  6 08:49:37 1994"), (b"WWW-Authenticate", b'Basic realm="staff  only"'), (b"X-Columns", b"left\tright"),
+        (b"Set-Cookie", b"d=x   y"), (b"Set-Cookie", b"d=x y")]
 REQ = b"GET /r HTTP/1.1\r\nHost: h"
 
 
